@@ -50,3 +50,47 @@ def recv_one(stream, cuts):
     s = FakeSocket(stream, cuts)
     r = bits.p2p.recv_msg(s)
     return r, s.pos
+
+
+class _Evt:
+    def __init__(self, n):
+        self.n = n
+
+    def is_set(self):
+        self.n -= 1
+        return self.n < 0
+
+
+class _Thread:
+    def __init__(self, iterations):
+        self.exit_event = _Evt(iterations)
+
+
+class SendSocket(FakeSocket):
+    def __init__(self, stream):
+        FakeSocket.__init__(self, stream)
+        self.sent = []
+        self.closed = False
+
+    def sendall(self, b):
+        self.sent.append(bytes(b))
+
+    def close(self):
+        self.closed = True
+
+
+def node_iteration(peer_no, command, payload, queue_before, n_peers=2):
+    """Replay harness for ONE iteration of bits.p2p.Node.recv_loop for peer `peer_no`: the peer's socket carries exactly
+    one framed message (command, payload); the node's queue initially holds `queue_before`.
+    Returns (queue afterwards, bytes sent to each peer, per-peer data).  Symbolically the node is a ghost record
+    (pyvc/ghosts.py) and, with rely=True in the theorem options, other threads may append between any two queue
+    operations of this thread."""
+    from collections import deque
+    node = bits.p2p.Node()
+    node._msg_queue = deque(queue_before)
+    for i in range(n_peers):
+        node._peer_sockets[i] = SendSocket(frame(bits.p2p.MAGIC_START_BYTES, command, payload) if i == peer_no else b"")
+        node._peer_threads[i] = _Thread(1)
+        node._peer_data[i] = {}
+    node.recv_loop(peer_no)
+    return list(node._msg_queue), {i: node._peer_sockets[i].sent for i in range(n_peers)}, node._peer_data
